@@ -25,7 +25,9 @@ RULE = ("case = (sampler configuration, f output kind {scalar, vector, tuple}, w
         "block B = a fixed set of sampler configurations x the complete parameter-placement lattice x orders "
         "(thorough: larger sets in B).  distinct = distinct observation hashes")
 RULE_ADDED = ('Added later: parameters shared between f and log p, mh drift plane, step functions returning a reuse'
-              'd buffer, integer-valued (int64) chain state, call-order plane in fresh interpreters.')
+              'd buffer, integer-valued (int64) chain state, call-order plane in fresh interpreters. Round 4: integ'
+              'rands returning the sample itself (fout ident) or a tensor the caller holds (constant integrand; mus'
+              't stay untouched).')
 ASSUMPTIONS = [
     "an evaluation of f that carries zero weight in the result and happens at x0 is the documented shape probe",
     "mhcustom: the sample sequence must be a contiguous run of nsamples chain states starting at index nburnout-1, "
